@@ -403,6 +403,40 @@ def struct_emitters(X):
         for e in streams[fn]:
             called |= {c for c in e.chain[1:] if c != fn}
     out = [fn for fn in out if fn not in called]
+
+    # a function that is handed ready-made text for its templates (a `&str` / `String` parameter written as it is: the name of the
+    # struct, the namespaces attribute) can only be read where that text is known: in its callers
+    def needs_context(fn):
+        for e in X.events.get(fn, []):
+            if e.kind != "emit" or not e.skeleton().lstrip().startswith("#[yaserde("):
+                continue     # (only what the attributes are made of: names handed over as parameters are read as they are)
+            for (nf, tr, ty) in e.holes():
+                t_ = (ty or "").replace("&", "").replace("mut ", "").strip()
+                if isinstance(nf, tuple) and nf[0] == "param" and t_ in ("str", "std::string::String", "String") and nf[1] != "self":
+                    return True
+        return False
+    callers_of = {}
+    for fn, evs in streams.items():
+        for e in X.events.get(fn, []):
+            if e.kind == "call" and e.callee in X.events:
+                callers_of.setdefault(e.callee, set()).add(fn)
+    for _ in range(3):
+        nxt, changed = [], False
+        for fn in out:
+            cs = sorted(c for c in callers_of.get(fn, ()) if c in streams and c != fn)
+            if needs_context(fn) and cs:
+                nxt += cs
+                changed = True
+            else:
+                nxt.append(fn)
+        out = list(dict.fromkeys(nxt))
+        if not changed:
+            break
+    called = set()
+    for fn in out:
+        for e in streams[fn]:
+            called |= {c for c in e.chain[1:] if c != fn}
+    out = [fn for fn in out if fn not in called]
     X._struct_emitters = sorted(out)
     return X._struct_emitters
 
